@@ -83,7 +83,10 @@ Inductive coupling :=
 | CAlg (post : bool) (f : Qc -> Qc -> Qc)
 | CDyn (post : bool) (g : Qc -> Qc -> Qc -> Qc).
 
-Record conn := { csrc : nat; csv : nat; ctgt : nat; ctv : nat; cw : weight; ccpl : coupling; cpv : nat; cdelay : nat }.
+(* cdelay: discrete delay in steps; cspread = Some (d, s): Connectivity(delays=d, spread=s) in time units — gamma-kernel
+   delay, realised as an ODE cascade instead of the ring buffer *)
+Record conn := { csrc : nat; csv : nat; ctgt : nat; ctv : nat; cw : weight; ccpl : coupling; cpv : nat; cdelay : nat;
+                 cspread : option (Qc * Qc) }.
 Record popnet := { pops : list pop; conns : list conn }.
 
 Record pstate := { sx : vec; sz : vec }.            (* the two state variables of every unit of one population *)
@@ -126,13 +129,38 @@ Definition collides (N : popnet) (c : conn) : bool :=
   negb fixed_F2 && is_mat (cw c) && uses_post (ccpl c) && negb (csrc c =? ctgt c)%nat && (csv c =? cpv c)%nat
   && (n_into N (ctgt c) (ctv c) =? 1)%nat.
 
-Definition pop_source (N : popnet) (hist : list nstate) (c : conn) : vec :=
+(* gamma-kernel delay (_add_matrix_delay, ODE-cascade branch; same formulas on scalar edges): order n = max(1, round((d/s)^2))
+   (Python round: half to even), rate a = n/d, stages z_1..z_n per SOURCE unit with z_k' = a*(z_(k-1) - z_k), z_0 = the source
+   variable, all stages 0 at the start; the connection reads z_n.  In the explicit network every scalar edge has its own
+   cascade; the cascades of the edges that leave one source unit with the same (d, s) are identical, so one (n x Ns) matrix
+   per connection holds them (stored in the connection's edge-state slot; a connection with a DYNAMIC coupling template
+   and a spread is not modelled — the generator does not produce it). *)
+Definition round_half_even (q : Qc) : Z :=
+  let num := Qnum (this q) in let den := Zpos (Qden (this q)) in
+  let t := Z.div (2 * num + den) (2 * den) in
+  if Z.eqb (Z.modulo (2 * num + den) (2 * den)) 0 && Z.odd t then (t - 1)%Z else t.
+Definition chain_order (ds : Qc * Qc) : nat := Nat.max 1 (Z.to_nat (round_half_even ((fst ds / snd ds) * (fst ds / snd ds)))).
+Definition chain_rate (ds : Qc * Qc) : Qc := Q2Qc (inject_Z (Z.of_nat (chain_order ds))) / fst ds.
+Definition chain_deriv (N : popnet) (hist : list nstate) (c : conn) (V : mat) : mat :=
+  match cspread c with
+  | None => []
+  | Some ds => let a := chain_rate ds in
+               zipw (fun prev row => zipw (fun p z => a * (p - z)) prev row) (delayed N hist 0 (csrc c) (csv c) :: V) V
+  end.
+(* the (possibly delayed) source vector of a connection *)
+Definition src_vec (N : popnet) (hist : list nstate) (c : conn) (V : mat) : vec :=
+  match cspread c with
+  | None => delayed N hist (eff_delay (cdelay c)) (csrc c) (csv c)
+  | Some _ => if is_dyn (ccpl c) then delayed N hist 0 (csrc c) (csv c) else last V (repeat 0 (size_of N (csrc c)))
+  end.
+
+Definition pop_source (N : popnet) (hist : list nstate) (c : conn) (V : mat) : vec :=
   if collides N c then delayed N hist 0 (ctgt c) (cpv c)
-  else delayed N hist (eff_delay (cdelay c)) (csrc c) (csv c).
+  else src_vec N hist c V.
 Definition post_of (N : popnet) (hist : list nstate) (c : conn) : vec := delayed N hist 0 (ctgt c) (cpv c).
 
 Definition pop_contrib (N : popnet) (hist : list nstate) (c : conn) (V : mat) : vec :=
-  let s := pop_source N hist c in
+  let s := pop_source N hist c V in
   let t := post_of N hist c in
   match cw c with
   | WScal w => repeat (if near_one w then vsum s else w * vsum s) (size_of N (ctgt c))
@@ -147,9 +175,9 @@ Definition pop_contrib (N : popnet) (hist : list nstate) (c : conn) (V : mat) : 
 Definition pop_edge_deriv (N : popnet) (hist : list nstate) (c : conn) (V : mat) : mat :=
   match cw c, ccpl c with
   | WMat W, CDyn _ g =>
-      let s := pop_source N hist c in
+      let s := pop_source N hist c V in
       map3m g (broadcast_pre s (length W)) (broadcast_post (post_of N hist c) (length s)) V
-  | _, _ => []
+  | _, _ => chain_deriv N hist c V
   end.
 
 Definition cur (hist : list nstate) : nstate := hd ([], []) hist.
@@ -229,7 +257,7 @@ Fixpoint edge_sum (es : list sedge) (term : sedge -> Qc) (i : nat) : Qc :=
 
 (* what one scalar edge carries *)
 Definition exp_term (N : popnet) (hist : list nstate) (c : conn) (V : mat) (e : sedge) : Qc :=
-  let sj := nth (e_src e) (delayed N hist (eff_delay (cdelay c)) (csrc c) (csv c)) 0 in
+  let sj := nth (e_src e) (src_vec N hist c V) 0 in
   let ti := nth (e_tgt e) (post_of N hist c) 0 in
   match ccpl c with
   | CPlain => sj
@@ -241,11 +269,11 @@ Definition exp_term (N : popnet) (hist : list nstate) (c : conn) (V : mat) (e : 
 Definition exp_edge_deriv (N : popnet) (hist : list nstate) (c : conn) (V : mat) : mat :=
   match ccpl c with
   | CDyn _ g =>
-      let s := delayed N hist (eff_delay (cdelay c)) (csrc c) (csv c) in
+      let s := src_vec N hist c V in
       let t := post_of N hist c in
       map (fun i => map (fun j => g (nth j s 0) (nth i t 0) (nth j (nth i V []) 0)) (seq 0 (size_of N (csrc c))))
           (seq 0 (size_of N (ctgt c)))
-  | _ => []
+  | _ => chain_deriv N hist c V
   end.
 
 Definition exp_input (mw : Qc) (N : popnet) (hist : list nstate) (p tv i : nat) : Qc :=
@@ -284,13 +312,16 @@ Fixpoint run_hist (D : list nstate -> nstate) (dt : Qc) (init : nstate) (k : nat
 Definition traj (D : list nstate -> nstate) (dt : Qc) (init : nstate) (rows : nat) : list (list pstate) :=
   match rows with O => [] | S k => rev (map fst (run_hist D dt init k)) end.
 
+(* the stages of a gamma-kernel cascade start at 0 *)
+Definition init_chain (N : popnet) (c : conn) : mat :=
+  match cspread c with None => [] | Some ds => repeat (repeat 0 (size_of N (csrc c))) (chain_order ds) end.
 (* initial edge states: the declared value v0 for every pair of a dynamic matrix coupling *)
 Definition init_edges (N : popnet) (v0 : Qc) : list mat :=
   map (fun c => match cw c, ccpl c with
                 | WMat W, CDyn _ _ => map (fun r => map (fun _ => v0) r) W
-                | _, _ => [] end) (conns N).
+                | _, _ => init_chain N c end) (conns N).
 Definition init_edges_exp (N : popnet) (v0 : Qc) : list mat :=
-  map (fun c => if is_dyn (ccpl c) then full (size_of N (ctgt c)) (size_of N (csrc c)) v0 else []) (conns N).
+  map (fun c => if is_dyn (ccpl c) then full (size_of N (ctgt c)) (size_of N (csrc c)) v0 else init_chain N c) (conns N).
 
 (* repair F3: a scalar weight that comes with a coupling template is expanded to the full (nt x ns) matrix *)
 Definition is_plain (k : coupling) : bool := match k with CPlain => true | _ => false end.
@@ -299,7 +330,7 @@ Definition norm_conn (N : popnet) (c : conn) : conn :=
   | WScal w => if fixed_F3 && negb (is_plain (ccpl c))
                then {| csrc := csrc c; csv := csv c; ctgt := ctgt c; ctv := ctv c;
                        cw := WMat (repeat (repeat w (size_of N (csrc c))) (size_of N (ctgt c)));
-                       ccpl := ccpl c; cpv := cpv c; cdelay := cdelay c |}
+                       ccpl := ccpl c; cpv := cpv c; cdelay := cdelay c; cspread := cspread c |}
                else c
   | WMat _ => c
   end.
